@@ -5,7 +5,7 @@
 package genql
 
 // every function of the package: error results are propagated (C19)
-//@ package-wide errors[C19]
+//@ package-wide errors[C19] locks[C13]
 
 // ---------------------------------------------------------------------------
 // plsql.go: the pipeline
@@ -160,7 +160,18 @@ package genql
 // ---------------------------------------------------------------------------
 // selector.go: path evaluation (value and frame are the subject of C09/C11; assumed here)
 
+//@ global cache guarded_by mut [C13]
+//@ global mut mutex [C13]
+//@ global functions init-only [C13] writers RegisterFunction RegisterExternalFunction
+//@ global immediateFunctions init-only [C13] writers RegisterFunction RegisterImmediateFunction RegisterExternalFunction
+//@ global topLevelFunctions init-only [C13] writers RegisterTopLevelFunction
+//@ global fullPattern immutable [C13]
+//@ global arrayPattern immutable [C13]
+//@ global pipePattern immutable [C13]
 //@ func ExecReader
+//@   requires free: !held(&mut)
+//@   locks[C13,C10,C19]
+//@   safety[C09]
 //@   trusted : value and frame of path evaluation are C09's and C11's subject; callers rely on this summary
 //@   ensures value[C09]: err == nil ==> result == spec.Read(data, selector)
 //@   modifies locks M|Str|Slice D|Str|Slice
@@ -270,10 +281,14 @@ package genql
 //@   ensures err-not-ok[C19,C04]: err != nil ==> !result0
 
 //@ func (*Join).ParallelJoinFunc$1
+//@   requires free: !held(&mut)
+//@   guarded slice firstErr by mut
 //@   absorbs (*Join).JoinMatchFunc : recorded in firstErr (clause recorded), returned by the parent after wg.Wait
 //@   ensures recorded[C19,C10]: called(JoinMatchFunc) && callresult(JoinMatchFunc, 2) != nil ==> firstErr != nil
 
 //@ func (*Join).ParallelHashJoinFunc$1
+//@   requires free: !held(&mut)
+//@   guarded slice firstErr by mut
 //@   absorbs (*Join).HashJoinMatchFunc : recorded in firstErr (clause recorded), returned by the parent after wg.Wait
 //@   ensures recorded[C19,C10]: called(HashJoinMatchFunc) && callresult(HashJoinMatchFunc, 2) != nil ==> firstErr != nil
 
